@@ -131,9 +131,14 @@ NestedSeq ==
   UNION {{SIf(PBool(TRUE), <<b, g>>, <<>>), SIf(PBool(TRUE), <<g, b>>, <<>>), SIf(PBool(TRUE), <<g>>, <<b, g>>), SLoop(<<b, g, SBrk>>),
           SLoop(<<SIf(PBool(TRUE), <<b, g>>, <<>>), SBrk>>), SIf(PBool(TRUE), <<SIf(PBool(FALSE), <<g>>, <<b, g>>)>>, <<>>)}
            : b \in BadStmts, g \in GoodStmts}
+(* `continue` and `break` directly after another statement inside a loop body *)
+AfterStmt == UNION {{SLoop(<<g, SCont, SBrk>>), SLoop(<<SIf(PBool(TRUE), <<g, SCont>>, <<>>), SBrk>>), SLoop(<<g, SBrk>>),
+                     SLoop(<<SIf(PBool(FALSE), <<g, SBrk>>, <<g, SCont>>), SBrk>>)}
+                    : g \in {SSet("n", PNum(1)), SDbg(PNum(1)), SDbg(PVar("match")), SSet("s", PBin("+", PVar("match"), PStr(Sa)))}}
 EBadFwd == EBad
 C12_Lists(tier) ==
   {<<a>> : a \in Simple \cup Compound \cup TypeTable \cup NestedSeq}
+    \cup {<<a, SRet(PStr(Sa))>> : a \in AfterStmt} \cup {<<a, SRet(PBool(TRUE))>> : a \in AfterStmt}
     \cup {<<a, SRet(PStr(Sa))>> : a \in NestedSeq} \cup {<<a, SRet(PBool(TRUE))>> : a \in NestedSeq}
     \cup {<<SLoop(<<a, SBrk>>)>> : a \in {SRet(PVar("match")), SRet(PNum(1)), SRet(PBool(TRUE)), SRet(PBin("==", PNum(1), PNum(1)))}}
     \cup {<<SIf(PBool(TRUE), <<SLoop(<<a>>)>>, <<>>), SRet(PStr(Sa))>> : a \in {SRet(PVar("match")), SRet(PBool(TRUE)), SBrk}}
